@@ -73,7 +73,9 @@ type Escape struct {
 
 // Summary is the effect summary of one function.
 type Summary struct {
-	Escapes map[string]Escape
+	// ArgRoots: per call instruction of the function, the provenance roots of each argument
+	ArgRoots map[ssa.CallInstruction][][]Root
+	Escapes  map[string]Escape
 	Fn      *ssa.Function
 	Writes  map[string]Write // keyed by root+site
 	Returns rootSet          // roots of pointer-like results
@@ -295,6 +297,28 @@ func (a *Analysis) analyzeFunc(fn *ssa.Function) bool {
 			break
 		}
 	}
+	// keep the roots of call arguments: rules ask "what does this call site hand to parameter i?"
+	if st.sum.ArgRoots == nil {
+		st.sum.ArgRoots = map[ssa.CallInstruction][][]Root{}
+	}
+	for _, b := range fn.Blocks {
+		for _, ins := range b.Instrs {
+			ci, ok := ins.(ssa.CallInstruction)
+			if !ok {
+				continue
+			}
+			var per [][]Root
+			for _, arg := range ci.Common().Args {
+				var rs []Root
+				for r := range st.rootsOf(arg) {
+					rs = append(rs, r)
+				}
+				sort.Slice(rs, func(i, j int) bool { return rs[i].String() < rs[j].String() })
+				per = append(per, rs)
+			}
+			st.sum.ArgRoots[ci] = per
+		}
+	}
 	return st.signature() != before
 }
 
@@ -371,13 +395,16 @@ func (st *funcState) escape(val, into rootSet, ins ssa.Instruction, via string) 
 			continue
 		}
 		if via == "store" {
-			nonGlobal := false
+			// leaving = into memory the function does not own: a parameter's, a captured variable's, unknown. A store
+			// into a fresh local is not an escape yet (the local "holds" the reference; it is reported if it is
+			// stored on or returned)
+			leaving := false
 			for t := range into {
-				if t.Kind != "global" {
-					nonGlobal = true
+				if t.Kind != "global" && t.Kind != "fresh" {
+					leaving = true
 				}
 			}
-			if !nonGlobal {
+			if !leaving {
 				continue
 			}
 		}
@@ -510,7 +537,10 @@ func (st *funcState) visit(ins ssa.Instruction) bool {
 			if st.hold(rs, vr) {
 				ch = true
 			}
-			st.escape(vr, rs, x, "store")
+			// a function value taken from a package-level table is code, not storage: no alias
+			if _, isFunc := x.Val.Type().Underlying().(*types.Signature); !isFunc {
+				st.escape(vr, rs, x, "store")
+			}
 		}
 	case *ssa.MapUpdate:
 		rs := st.rootsOf(x.Map)
@@ -526,7 +556,9 @@ func (st *funcState) visit(ins ssa.Instruction) bool {
 				if st.sum.Returns.add(st.rootsOf(r)) {
 					ch = true
 				}
-				st.escape(st.rootsOf(r), nil, x, "return")
+				if _, isFunc := r.Type().Underlying().(*types.Signature); !isFunc {
+					st.escape(st.rootsOf(r), nil, x, "return")
+				}
 			}
 		}
 	case *ssa.Call:
